@@ -74,6 +74,9 @@ def curated():
     # 16. external element at a non-zero offset of the external file: grow, then overwrite in place near the end
     S.append(("external-offset", [CREATE(16), HXCREATE(0, 0, 4), WRITE(0, 12), SEEK(0, 2), WRITE(0, 4), INQUIRE(0), SEEK(0, 6), WRITE(0, 4), INQUIRE(0), SEEK(0, 0), READ(0, 0), ENDACC(0), CLOSE(),
                                 OPEN(DFACC_READ), GET(0), STARTACC(0, 0, 1), SEEK(0, 8), READ(0, 4), ENDACC(0), CLOSE()]))
+    # 17. 1-entry link tables; ONE write that creates the second and the third table mid-write; re-read after reopen
+    S.append(("lb-third-table", [CREATE(16), HLCREATE(0, 0, 4, 1), WRITE(0, 12), SEEK(0, 0), READ(0, 0), ENDACC(0), CLOSE(),
+                               OPEN(DFACC_READ), GET(0), STARTACC(0, 0, 1), SEEK(0, 7), READ(0, 5), ENDACC(0), CHECKALL(), CLOSE()]))
     return S
 
 def random_skeleton(rng):
